@@ -141,7 +141,8 @@ fn stripe_score<A: Alphabet>(case: u64, rng: &mut Rng, rep: &mut Report, alpha: 
                         }
                         // maximum / argmax / threshold over the fresh result
                         let res = guard(|| {
-                            force(arm);
+                            // (under Miri the unforced dispatcher would pick the SSE2 arm: keep it generic)
+                            force(if mode == Mode::Miri { Arm::DispGeneric } else { arm });
                             let r = (out.max(), out.argmax(), out.threshold(0.0).len());
                             unforce();
                             let g = Pipeline::<Dna, _>::generic();
@@ -233,7 +234,7 @@ fn u8_and_scan(case: u64, rng: &mut Rng, rep: &mut Report, mode: Mode, l: usize,
                     }
                 }
             }
-            force(arm);
+            force(if mode == Mode::Miri { Arm::DispGeneric } else { arm });
             let _ = (out.max(), out.argmax(), out.threshold(200).len());
             unforce();
             if mode != Mode::Miri {
@@ -241,6 +242,7 @@ fn u8_and_scan(case: u64, rng: &mut Rng, rep: &mut Report, mode: Mode, l: usize,
                 let _ = (a.max(&out), a.argmax(&out));
             }
             // scanner under the same arm
+            let arm = if mode == Mode::Miri { Arm::DispGeneric } else { arm };
             for &b in [1usize, 3, 16, 256].iter() {
                 force(arm);
                 let mut sc = Scanner::new(&pssm, &st);
